@@ -226,6 +226,21 @@ def emit_fn(item, fn, log, indent="    "):
             ins.append((toks[item.b0].end, block))
         elif kind == "body_end":
             ins.append((toks[item.b1].start, block))
+        elif kind == "before_tail":
+            # before the tail expression of the body = after the last top-level `;` (or `}` of a
+            # block statement); independent of the tail's own text
+            j = item.b0 + 1
+            last = item.b0
+            while j < item.b1:
+                tx = toks[j].text
+                if tx in ("(", "[", "{"):
+                    j = match_close(toks, j)
+                    if tx == "{" and j + 1 < item.b1 and toks[j + 1].text not in (".", "?", ";", ")", ","):
+                        last = j
+                elif tx == ";":
+                    last = j
+                j += 1
+            ins.append((toks[last].end, block))
         elif kind in ("loop_start", "loop_end"):
             n = int(pat)
             if n < 1 or n > len(loops):
